@@ -351,6 +351,11 @@ func replayFile(path string) int {
 }
 
 func rtCategory(s string) string {
+	s = strings.TrimPrefix(s, "runtime error: ")
+	if strings.HasPrefix(s, "interface conversion:") {
+		// the runtime names the types differently from go/types (package name vs import path)
+		return "interface conversion"
+	}
 	for _, cut := range []string{" [", " with length", " (method", " (call"} {
 		if i := strings.Index(s, cut); i >= 0 {
 			s = s[:i]
